@@ -118,7 +118,7 @@ def title(rng):
     return [rng.choice([0x20, 0x41, 0x7E, 0xE9, rng.randrange(0x20, 0x7F)]) for _ in range(n)]
 
 
-def history(rng, nops, blink=True, graphic=True, sized=True, ops_weights=None, behbits=None):
+def history(rng, nops, blink=True, graphic=True, sized=True, ops_weights=None, behbits=None, wild=False):
     """returns the script line (without oracle config)"""
     if behbits is None:
         # bits 0-4: the five flags the library consults; bits 5-11: the seven it declares but ignores (non-default values)
@@ -153,6 +153,11 @@ def history(rng, nops, blink=True, graphic=True, sized=True, ops_weights=None, b
             s = op_ws(es)
         elif o == "mv":
             p = pos(rng, w, h, cur)
+            if wild and rng.random() < 0.5:
+                # outside the declared size (beyond the right / bottom edge, far beyond, negative): correspondence only
+                p = (rng.choice([p[0], w, w + 1, w + 20, -1, 5 * w + 3]), rng.choice([p[1], h, h + 1, h + 7, -1]))
+                if rng.random() < 0.4 and cur is not None:
+                    p = cur                                    # the same out-of-range request again
             cur = p
             s = "mv %d %d" % p
         elif o == "er":
